@@ -1,5 +1,213 @@
 package c02
 
-import "github.com/magisterquis/curlrevshell/verifharness/mon"
+import (
+	"bufio"
+	"fmt"
+	"os/exec"
+	"strings"
+	"syscall"
+	"time"
 
-func httpSessions(r *mon.Run) {}
+	"github.com/magisterquis/curlrevshell/verifharness/mon"
+	"github.com/magisterquis/curlrevshell/verifharness/mon/bk"
+	"github.com/magisterquis/curlrevshell/verifharness/mon/crs"
+	"github.com/magisterquis/curlrevshell/verifharness/mon/hk"
+)
+
+// lineReader is a client of /i/{id} or /io that yields operator lines.
+type lineReader interface {
+	ReadLine(d time.Duration) (string, error)
+	Close()
+}
+
+type curlReader struct {
+	cmd *exec.Cmd
+	br  *bufio.Reader
+	ch  chan string
+}
+
+func openCurl(addr, target string) (*curlReader, error) {
+	cmd := exec.Command("/usr/bin/curl", "-Nsk", "https://"+addr+target)
+	cmd.SysProcAttr = &syscall.SysProcAttr{Setpgid: true}
+	out, err := cmd.StdoutPipe()
+	if err != nil {
+		return nil, err
+	}
+	if err := cmd.Start(); err != nil {
+		return nil, err
+	}
+	c := &curlReader{cmd: cmd, br: bufio.NewReader(out), ch: make(chan string, 1024)}
+	go func() {
+		defer close(c.ch)
+		for {
+			l, err := c.br.ReadString('\n')
+			if l != "" && strings.HasSuffix(l, "\n") {
+				c.ch <- strings.TrimSuffix(l, "\n")
+			}
+			if err != nil {
+				return
+			}
+		}
+	}()
+	return c, nil
+}
+
+func (c *curlReader) ReadLine(d time.Duration) (string, error) {
+	select {
+	case l, ok := <-c.ch:
+		if !ok {
+			return "", fmt.Errorf("curl ended")
+		}
+		return l, nil
+	case <-time.After(d):
+		return "", fmt.Errorf("timeout")
+	}
+}
+func (c *curlReader) Close() {
+	syscall.Kill(-c.cmd.Process.Pid, syscall.SIGKILL)
+	c.cmd.Wait()
+}
+
+// httpSessions: the real mux over TLS.  Lock-step: line i+1 is entered only
+// after the client has READ line i, so delivery can never depend on later
+// input (a missing flush shows as a stall); across gracefully ended shells the
+// clients' lines are contiguous, ordered and duplicate-free.
+func httpSessions(r *mon.Run) {
+	n := r.N(30, 400)
+	mon.Parallel(n, 8, func(i int) {
+		if !r.Want("http", i) {
+			return
+		}
+		rng := r.Rng("http", i)
+		s, err := hk.Start(hk.Config{})
+		if err != nil {
+			r.Inconclusive("server: " + err.Error())
+			return
+		}
+		defer s.Stop()
+		var kinds []string
+		viol := func(key, what string) {
+			r.Violate("http", i, key, what, map[string]any{"shells": kinds, "log_tail": s.Log.Tail(25)})
+		}
+		next := 0
+		line := func(k int) string {
+			pay := []string{"", "ls -la", `echo "q" 'x' \\`, strings.Repeat("y", 3000), "%s%d", "tab\there", strings.Repeat("z", 70000)}[k%7]
+			return fmt.Sprintf("#%05d:%s", k, pay)
+		}
+		gens := 2 + rng.IntN(4)
+		for g := 0; g < gens; g++ {
+			kind := []string{"tls-i", "tls-io", "curl-i"}[rng.IntN(3)]
+			kinds = append(kinds, kind)
+			from := s.Log.Len()
+			id := fmt.Sprintf("h%d-%d", i, g)
+			var c lineReader
+			var aux *crs.OutStream
+			switch kind {
+			case "tls-i":
+				in, err := crs.OpenIn(s.Addr, "/i/"+id)
+				if err != nil {
+					r.Inconclusive(err.Error())
+					return
+				}
+				c = in
+			case "tls-io":
+				io, err := crs.OpenIO(s.Addr)
+				if err != nil {
+					r.Inconclusive(err.Error())
+					return
+				}
+				c, aux = io.In, io.Out
+			case "curl-i":
+				cr, err := openCurl(s.Addr, "/i/"+id)
+				if err != nil {
+					r.Inconclusive(err.Error())
+					return
+				}
+				c = cr
+			}
+			_ = aux
+			// lines entered while no shell was attached come first; then lock-step
+			if _, ok := s.Log.Wait(from, hk.Bound, func(e bk.Event) bool {
+				return e.Kind == "json" && strings.Contains(e.S, `"msg":"New connection"`) && strings.Contains(e.S, `"direction":"input"`)
+			}); !ok {
+				viol("input-not-admitted", fmt.Sprintf("shell %d (%s) was not attached", g, kind))
+				c.Close()
+				return
+			}
+			k := 3 + rng.IntN(10)
+			pending := 0
+			for j := 0; j < k; j++ {
+				burst := 1
+				if rng.IntN(5) == 0 {
+					burst = 2 + rng.IntN(3) // a few entered together, still read one by one
+				}
+				for b := 0; b < burst; b++ {
+					s.Ich <- line(next + pending)
+					pending++
+				}
+				for pending > 0 {
+					got, err := c.ReadLine(hk.Bound)
+					if err != nil {
+						viol("line-not-pushed-onto-network", fmt.Sprintf("shell %d (%s): line #%d was entered but did not reach the client although nothing else was entered (%v)", g, kind, next, err))
+						c.Close()
+						return
+					}
+					if got != line(next) {
+						viol("input-stream-corrupt", fmt.Sprintf("shell %d (%s): client read %q, expected line #%d %q", g, kind, trunc([]byte(got)), next, trunc([]byte(line(next)))))
+						c.Close()
+						return
+					}
+					next++
+					pending--
+					r.Count("http_lines_read_by_clients", 1)
+				}
+			}
+			// graceful ending: nothing in flight, client goes away, then lines are entered for the next shell
+			c.Close()
+			if _, ok := s.Log.Wait(from, hk.Bound, func(e bk.Event) bool { return e.Kind == "op" && strings.Contains(e.S, "Shell is gone") }); !ok {
+				viol("shell-does-not-end", fmt.Sprintf("shell %d (%s): no gone notice after the client went away", g, kind))
+				return
+			}
+			held := rng.IntN(3)
+			for b := 0; b < held; b++ { // held for the next shell
+				s.Ich <- line(next + b)
+			}
+			if held > 0 && g+1 < gens {
+				// the next generation reads them first: arrange by pre-loading pending count
+				kindsNext := 0
+				_ = kindsNext
+			}
+			// read back the held lines with a throw-away client so that the bookkeeping stays simple
+			if held > 0 {
+				in, err := crs.OpenIn(s.Addr, "/i/"+id+"-held")
+				if err != nil {
+					r.Inconclusive(err.Error())
+					return
+				}
+				for b := 0; b < held; b++ {
+					got, err := in.ReadLine(hk.Bound)
+					if err != nil || got != line(next) {
+						viol("held-line-lost", fmt.Sprintf("line #%d entered while no shell was attached did not reach the next shell intact: %q %v", next, trunc([]byte(got)), err))
+						in.Close()
+						return
+					}
+					next++
+					r.Count("http_lines_read_by_clients", 1)
+					r.Count("http_lines_held_for_next_shell", 1)
+				}
+				f2 := s.Log.Len()
+				in.Close()
+				s.Log.Wait(f2, hk.Bound, func(e bk.Event) bool { return e.Kind == "op" && strings.Contains(e.S, "Shell is gone") })
+			}
+			r.Count("http_shells:"+kind, 1)
+		}
+		r.Eval(1)
+		r.Count("http_sessions", 1)
+		r.Distinct(fmt.Sprintf("http|%v|%d", kinds, next))
+		if i == 0 {
+			r.Sample("http", map[string]any{"shells": kinds, "lines": next})
+		}
+	})
+	r.Floor("http_sessions", int64(n*9/10))
+	r.Floor("http_lines_read_by_clients", int64(n*10))
+}
